@@ -1,13 +1,72 @@
 // Shims of rewrite rules R6, R7, R10 (DESIGN.md 2.2). Bodies call the std function; the
 // contracts are the trusted part (listed in every evidence file).
 use vstd::prelude::*;
+#[allow(unused_imports)] use vstd::std_specs::iter::IteratorSpec;
 verus! {
 
+/// R10: local stand-in for the trait `bytes::Buf` (only the four methods the repo calls).  The contract is the
+/// documented one of `bytes::Buf`, ASSUMED of every implementor the callers pass in: a Buf is a cursor over a byte
+/// string `rem()`; `chunk()` is a prefix of it, non-empty while bytes remain; `advance(n)` drops n bytes.
 pub trait Buf {
-    fn remaining(&self) -> usize;
-    fn chunk(&self) -> &[u8];
-    fn advance(&mut self, cnt: usize);
-    fn has_remaining(&self) -> bool;
+    /// ghost: the bytes not yet consumed
+    spec fn rem(&self) -> Seq<u8>;
+    fn remaining(&self) -> (r: usize)
+        ensures r == self.rem().len();
+    /// ghost: what chunk() returns in this state (it is a function of the state: two calls agree)
+    spec fn chunk_spec(&self) -> Seq<u8>;
+    fn chunk(&self) -> (r: &[u8])
+        ensures
+            r@ == self.chunk_spec(),
+            r@.len() <= self.rem().len(),
+            r@ == self.rem().subrange(0, r@.len() as int),
+            self.rem().len() > 0 ==> r@.len() > 0;
+    fn advance(&mut self, cnt: usize)
+        requires cnt <= old(self).rem().len(),
+        ensures final(self).rem() == old(self).rem().skip(cnt as int);
+    fn has_remaining(&self) -> (r: bool)
+        ensures r == (self.rem().len() > 0);
+}
+
+/// R19: `(start..).zip(it)`.  Assumed (the std contracts of RangeFrom<u64> and Zip): a well-behaved finite iterator
+/// stays so, and the i-th pair is (start + i, i-th element of `it`).
+#[verifier::external_body]
+pub fn zip_from_raw<B, T: Iterator<Item = B>>(start: u64, it: T) -> (r: impl Iterator<Item = (u64, B)>)
+    requires
+        it.obeys_prophetic_iter_laws(),
+        it.decrease() is Some,
+        start + it.remaining().len() <= u64::MAX,
+    ensures
+        r.obeys_prophetic_iter_laws(),
+        r.decrease() is Some,
+        r.remaining().len() == it.remaining().len(),
+        forall|i: int| 0 <= i < it.remaining().len() ==> #[trigger] r.remaining()[i] == ((start + i) as u64, it.remaining()[i]),
+{ (start..).zip(it) }
+
+/// the (position, payload bytes) pairs a zipped payload iterator yields
+#[verifier::prophetic]
+pub open spec fn zip_items<B: Buf, T: Iterator<Item = (u64, B)>>(it: T) -> Seq<(u64, Seq<u8>)> {
+    Seq::new(it.remaining().len(), |i: int| (it.remaining()[i].0, it.remaining()[i].1.rem()))
+}
+
+/// verified wrapper: the pairs are exactly `items_of(start, payloads of it)`
+pub fn zip_from<B: Buf, T: Iterator<Item = B>>(start: u64, it: T) -> (r: impl Iterator<Item = (u64, B)>)
+    requires
+        it.obeys_prophetic_iter_laws(),
+        it.decrease() is Some,
+        start + it.remaining().len() <= u64::MAX,
+    ensures
+        r.obeys_prophetic_iter_laws(),
+        r.decrease() is Some,
+        r.remaining().len() == it.remaining().len(),
+        forall|i: int| 0 <= i < it.remaining().len() ==> #[trigger] r.remaining()[i] == ((start + i) as u64, it.remaining()[i]),
+        zip_items(r) == crate::vspec::items_of(start, crate::vspec::iter_payloads(it)),
+{
+    let r = zip_from_raw(start, it);
+    proof {
+        reveal(crate::vspec::iter_payloads);
+        assert(zip_items(r) =~= crate::vspec::items_of(start, crate::vspec::iter_payloads(it)));
+    }
+    r
 }
 
 #[verifier::external_body]
